@@ -3,8 +3,28 @@
 #define TETL_NUMERIC_GCD_HPP
 
 #include <etl/_type_traits/common_type.hpp>
+#include <etl/_type_traits/is_signed.hpp>
+#include <etl/_type_traits/make_unsigned.hpp>
 
 namespace etl {
+
+namespace detail {
+
+/// |v| in the unsigned counterpart of the result type R. Exact for every v,
+/// including the most negative value.
+template <typename R, typename T>
+[[nodiscard]] constexpr auto gcd_abs(T v) noexcept -> make_unsigned_t<R>
+{
+    using U = make_unsigned_t<R>;
+    if constexpr (is_signed_v<T>) {
+        if (v < T(0)) {
+            return static_cast<U>(U(0) - static_cast<U>(v));
+        }
+    }
+    return static_cast<U>(v);
+}
+
+} // namespace detail
 
 /// \brief Computes the greatest common divisor of the integers m and n.
 ///
@@ -15,10 +35,16 @@ namespace etl {
 template <typename M, typename N>
 [[nodiscard]] constexpr auto gcd(M m, N n) noexcept -> etl::common_type_t<M, N>
 {
-    if (n == 0) {
-        return m;
+    using R = etl::common_type_t<M, N>;
+
+    auto a = detail::gcd_abs<R>(m);
+    auto b = detail::gcd_abs<R>(n);
+    while (b != 0) {
+        auto const r = static_cast<decltype(a)>(a % b);
+        a            = b;
+        b            = r;
     }
-    return gcd<M, N>(n, m % n);
+    return static_cast<R>(a);
 }
 
 } // namespace etl
